@@ -138,16 +138,39 @@ int main(int argc, char **argv) {
     // argv[4] (cuSPARSE variant only): the number of systems of the batch; every system starts at y0
     const int nsys = argc > 4 ? atoi(argv[4]) : 1;
     if (n.Init(nsys, 1e-20, 1e-5, 500) != NAUNET_SUCCESS) { printf("init-failed\n"); return 2; }
-    std::vector<realtype> abv((size_t)NEQUATIONS * nsys, y0);
+    // every system and equation of a batch starts at its own value (y0 + system + equation / 1024)
+    auto fill = [&](std::vector<realtype> &v, int ns) {
+        v.assign((size_t)NEQUATIONS * ns, y0);
+        if (ns > 1) for (int sidx = 0; sidx < ns; sidx++) for (int j = 0; j < NEQUATIONS; j++) v[(size_t)sidx * NEQUATIONS + j] = y0 + sidx + j / 1024.0;
+    };
+    // smallest and largest (final - start - dt) over all systems and equations: both 0 when every one advanced over dt
+    auto report = [&](const char *tag, const std::vector<realtype> &fin, const std::vector<realtype> &start) {
+        double lo = 0.0, hi = 0.0;
+        for (size_t i = 0; i < fin.size(); i++) { double dv = fin[i] - start[i] - dt; if (i == 0 || dv < lo) lo = dv; if (i == 0 || dv > hi) hi = dv; }
+        printf("%s %.17g %.17g\n", tag, lo, hi);
+    };
+    std::vector<realtype> abv, start;
+    fill(abv, nsys);
+    start = abv;
     realtype *ab = abv.data();
     std::vector<NaunetData> datav(nsys);
     int flag = n.Solve(ab, dt, datav.data());
-    n.Finalize();
-    if (nsys > 1) {      // the batch: smallest and largest final state over all systems and equations
-        double lo = ab[0], hi = ab[0];
-        for (double v : abv) { if (v < lo) lo = v; if (v > hi) hi = v; }
-        printf("batch %.17g %.17g\n", lo, hi);
+    if (nsys > 1) report("batch", abv, start);
+#ifdef MOCK_CUDA
+    if (argc > 5) {      // argv[5]: Reset to this number of systems, then one more Solve on a fresh batch
+        const int nsys2 = atoi(argv[5]);
+        int rflag = n.Reset(nsys2, 1e-20, 1e-5, 500);
+        std::vector<realtype> ab2, start2;
+        fill(ab2, nsys2);
+        start2 = ab2;
+        std::vector<NaunetData> data2(nsys2);
+        ci = 0; ri = 0;
+        int flag2 = rflag == NAUNET_SUCCESS ? n.Solve(ab2.data(), dt, data2.data()) : rflag;
+        report("after-reset", ab2, start2);
+        printf("after-reset-flag %d\n", flag2);
     }
+#endif
+    n.Finalize();
     // was the initial state logged?
     // was the initial state logged, and with which value?
     int logged = 0;
